@@ -49,15 +49,32 @@ ASSUMPTIONS = [
     "pointer slot: requested capacity <= 2^31; cursor presets are applied to a fresh (empty) slot only",
 ]
 EVIDENCE_NOTES = [
-    "proved (unbounded, Coq): array list al_refines_seq / al_run_refines_seq (every op, every int index, growth, malloc failure) "
-    "incl. shift loops; stack_refines_seq; linked list / queue refinement of their functional models to the reference sequence "
-    "with unique node ids; pointer slot ps_inv_reachable (ring segment = free slots, counters mod 2^32), ps_unique_live, "
-    "ps_get_until_removed, ps_full_refuses, ps_double_remove_refused, ps_iter_insertion_order, ps_all_capacities (no access "
-    "outside slots[]/pp_slots[] for any requested capacity <= 2^31, any preset); next_pow_of_2 rounding lemma",
-    "covered by the differential run + monitor only: prev/next pointer splicing of linked list, queue and the pointer-slot live "
-    "list (walked both ways after every op), node-pool interplay (memory_pool.c), exactly-once freeing at destroy",
-    "observation (outside the property's quantifier): muggle_array_list_get_index evaluates -index in int, undefined for INT_MIN; "
-    "pointer_slot_init with requested > 2^31 truncates the rounded capacity to 0",
+    "proved in Coq, unbounded (Properties_C11.v, all closed under the global context): "
+    "al_refines_seq (every op incl. ensure_capacity/clear, every int index except INT_MIN, every state satisfying the "
+    "representation invariant: equals the reference list operation, or - when storage cannot be obtained - is rejected with "
+    "contents, size and capacity unchanged; the two shift loops are modelled as loops and proved), al_history_refines_seq "
+    "(all histories from init, any capacity, growth and malloc failures), al_get_index_is_norm_index, al_index_refines_seq, "
+    "al_find_refines_seq; stack_refines_seq, stack_history_refines_seq; list_refines_seq, queue_refines_seq (functional "
+    "models refine the reference sequence, node ids unique, size = length, node-pool capacity respected); pointer slot: "
+    "ps_inv_reachable (ring segment [alloc_index, alloc_index+free) = the free slots without duplicates, free+live=capacity, "
+    "free_index = alloc_index - live mod 2^32, for every requested capacity <= 2^31 and every cursor preset, i.e. across the "
+    "2^32 wrap), ps_reachable_states_invariant, ps_unique_live, ps_get_until_removed, ps_full_refuses (both directions), "
+    "ps_double_remove_refused, ps_iter_insertion_order, ps_step_refines_spec, ps_all_capacities (no access outside slots[]/"
+    "pp_slots[]), ps_all_capacities_refuted_before_repair (witness: requested 3 on the code before the patch), "
+    "next_pow_of_2_rounds_up",
+    "DESIGN.md A.3 stated free_index = alloc_index + F (mod 2^32); that is false at init (all free, both cursors equal); the "
+    "proved relation is free_index = alloc_index - |live| (mod 2^32), which gives the A.3 relation modulo the capacity",
+    "covered by the differential run + monitor only (not proved): prev/next pointer splicing of linked list, queue and the "
+    "pointer-slot live list (the driver walks both directions and checks raw links after every op, under ASan); memory_pool.c "
+    "as node pool beyond its capacity counter; exactly-once freeing at destroy; correspondence model <-> C itself",
+    "defect confirmed on the unchanged tree and repaired by fixes/C11-pointer-slot-alloc-rounded.patch: pointer_slot_init sized "
+    "slots[]/pp_slots[] by the requested capacity but used the rounded capacity as ring modulus and bound (1518 of 3210 "
+    "quick-tier pointer-slot cases ended in an ASan heap-buffer-overflow: every requested capacity that is not a power of two)",
+    "observations outside the property's quantifier: muggle_array_list_get_index evaluates -index in int (undefined for "
+    "INT_MIN); pointer_slot_init with requested > 2^31 truncates the rounded capacity to 0; array list insert/append double "
+    "the capacity before validating the index (a refused position on a full list still grows the storage; contents and size "
+    "are unaffected)",
+    "the leaf-translator tie for muggle_array_list_get_index planned in DESIGN.md 4.4 is not implemented (no shared translator yet)",
 ]
 
 TWO31 = 1 << 31
